@@ -6,6 +6,7 @@ pub mod refuse;
 pub mod rt;
 pub mod rtree;
 pub mod sched;
+pub mod signal;
 pub mod slice;
 pub mod tfb;
 pub mod zoom;
